@@ -27,6 +27,89 @@ def defaulted (f : Field) (c : Cell) : Cell :=
 /-- a cell as a read delivers it: never the empty string -/
 def Proper (c : Cell) : Prop := c ≠ some []
 
+/-! ### join planning: the key-sharing graph -/
+
+/-- `n` can be reached from `t` through relations that pairwise share a key name -/
+inductive KeyPath (ss : Schema) (t : Name) : Name → Prop
+  | refl : KeyPath ss t t
+  | step {m n : Name} : KeyPath ss t m → sharesKey ss m n = true → KeyPath ss t n
+
+/-! ### text input: documented values -/
+
+def strOf : LVal → Text
+  | .str s => s
+  | _ => []
+
+/-- the documented value of field `f` of the item made from data line number `i` whose columns are
+`cm` (header names zipped with the line's values): the given column; else the line number for `i-id`,
+the number of whitespace-separated words of the `i-input` column for `i-length`; else nothing -/
+def recVal (cm : List (LVal × LVal)) (i : Nat) (f : Field) : LVal :=
+  match mapGet cm (.str f.name.toList) with
+  | some v => v
+  | none =>
+    if f.name = "i-id" then .int i
+    else if f.name = "i-length" then
+      match mapGet cm iInput with
+      | some v => .int (wordCount (strOf v))
+      | none => .none
+    else .none
+
+/-- the `i-id` value `_lines_to_records` uses for a line: the given column, else the line number -/
+def idVal (cm : List (LVal × LVal)) (i : Nat) : LVal := (mapGet cm iId).getD (.int i)
+
+/-- plain sentence lines: well-formedness mark and text -/
+def plainWf : Text → Nat
+  | '*' :: _ => 0
+  | _ => 1
+
+def plainText : Text → Text
+  | '*' :: rest => rest
+  | line => line
+
+/-- the documented item of the `i`-th sentence line -/
+def plainVal (i : Nat) (line : Text) (f : Field) : LVal :=
+  if f.name = "i-wf" then .int (plainWf line)
+  else if f.name = "i-input" then .str (plainText line)
+  else if f.name = "i-id" then .int i
+  else if f.name = "i-length" then .int (wordCount (plainText line))
+  else .none
+
+def plainRecs (fields : List Field) : Nat → List Text → List (List LVal)
+  | _, [] => []
+  | i, l :: ls => fields.map (plainVal i l) :: plainRecs fields (i + 1) ls
+
+/-- the documented items of delimited data lines (for lines the splitter accepts) -/
+def delimRecs (fields : List Field) (colnames : List LVal) (sp : Splitter) : Nat → List Text → List (List LVal)
+  | _, [] => []
+  | i, l :: ls =>
+    (match sp.split l with
+     | .ok cv => fields.map (recVal (colnames.zip cv) i)
+     | .error _ => []) :: delimRecs fields colnames sp (i + 1) ls
+
+/-- the id values of the data lines -/
+def lineIds (colnames : List LVal) (sp : Splitter) : Nat → List Text → List (Option LVal)
+  | _, [] => []
+  | i, l :: ls =>
+    (match sp.split l with
+     | .ok cv => some (idVal (colnames.zip cv) i)
+     | .error _ => none) :: lineIds colnames sp (i + 1) ls
+
+/-! ### words -/
+
+def IsWord (w : Text) : Prop := w ≠ [] ∧ ∀ c ∈ w, isPyWhitespace c = false
+def IsBlank (s : Text) : Prop := ∀ c ∈ s, isPyWhitespace c = true
+
+/-- `w₁ s₁ w₂ s₂ …` -/
+def assemble : List (Text × Text) → Text
+  | [] => []
+  | (w, s) :: rest => w ++ s ++ assemble rest
+
+/-- every separator but the last is non-empty -/
+def SepOk : List (Text × Text) → Prop
+  | [] => True
+  | [_] => True
+  | p :: q :: rest => p.2 ≠ [] ∧ SepOk (q :: rest)
+
 namespace L
 
 theorem distinctAux_replicate (r : Rec) (rest : List Rec) :
@@ -411,6 +494,77 @@ theorem linesLoop_length (fields : List Field) (colnames : List LVal) (sp : Spli
         simp only [Except.ok.injEq] at h
         subst h
         simp [linesLoop_length fields colnames sp ls (i + 1) seen' rs hrs]
+
+/-! ### join planning -/
+
+theorem reachLoop_sound (ss : Schema) (t : Name) (J : List Name) :
+    ∀ (fuel : Nat) (reach : List Name), (∀ n ∈ reach, KeyPath ss t n) →
+      ∀ n ∈ reachLoop ss J fuel reach, KeyPath ss t n
+  | 0, reach, h => by simpa [reachLoop] using h
+  | fuel + 1, reach, h => by
+    simp only [reachLoop]
+    apply reachLoop_sound ss t J fuel
+    intro n hn
+    rcases List.mem_append.mp hn with hn | hn
+    · exact h n hn
+    · simp only [List.mem_filter, Bool.and_eq_true, List.any_eq_true] at hn
+      obtain ⟨_, _, m, hm, hs⟩ := hn
+      exact KeyPath.step (h m hm) hs
+
+theorem joinPlan_sound (ss : Schema) (t : Name) (rs J : List Name) (h : joinPlan ss t rs = some J) :
+    t ∈ J ∧ (∀ r ∈ rs, r ∈ J) ∧ ∀ n ∈ J, KeyPath ss t n := by
+  unfold joinPlan at h
+  simp only at h
+  split at h
+  · cases h
+  · rename_i pivots _
+    split at h
+    · rename_i hall
+      simp only [Option.some.injEq] at h
+      subst h
+      refine ⟨by simp, fun r hr => by simp [hr], ?_⟩
+      intro n hn
+      simp only [List.all_eq_true] at hall
+      have hc := hall n hn
+      simp only [List.contains_iff_mem] at hc
+      exact reachLoop_sound ss t _ _ [t] (fun m hm => by
+        simp only [List.mem_singleton] at hm
+        subst hm
+        exact KeyPath.refl) n hc
+    · cases h
+
+theorem keyPath_keyless (ss : Schema) (t n : Name) (hk : keysOf ss t = []) (h : KeyPath ss t n) : n = t := by
+  induction h with
+  | refl => rfl
+  | step _ hs ih =>
+    subst ih
+    simp [sharesKey, intersects, hk] at hs
+
+/-! ### the write loop, total version for loops that read the directory they write -/
+
+theorem writeLoop_total_local (now : Nat) (gz : Bool)
+    (recsOf : Files → Name → List Field → Except Err (List Rec))
+    (hloc : ∀ fs1 fs2 t f, fs1 t = fs2 t → recsOf fs1 t f = recsOf fs2 t f) :
+    ∀ (s : Schema) (fs : Files), s.names.Nodup →
+      (∀ t fields, (t, fields) ∈ s → fields ≠ [] ∧ ∃ recs, recsOf fs t fields = .ok recs ∧
+          ∀ r ∈ recs, r.length = fields.length) →
+      (writeLoop now gz recsOf fs s).2 = none
+  | [], _, _, _ => by simp [writeLoop]
+  | (t0, f0) :: rest, fs, hnd, h => by
+    simp only [Schema.names, List.map_cons, List.nodup_cons] at hnd
+    obtain ⟨hne, recs, h1, h2⟩ := h t0 f0 (by simp)
+    simp only [writeLoop, h1, stage_total hne recs h2]
+    apply writeLoop_total_local now gz recsOf hloc rest _ hnd.2
+    intro t f ht
+    obtain ⟨hne', recs', h1', h2'⟩ := h t f (by simp [ht])
+    refine ⟨hne', recs', ?_, h2'⟩
+    rw [← h1']
+    apply hloc
+    have : t ≠ t0 := by
+      intro e
+      subst e
+      exact hnd.1 (List.mem_map_of_mem (f := (·.1)) ht)
+    simp [Files.set, this]
 
 end L
 
